@@ -21,12 +21,32 @@ def F(names):
 
 
 def closures_of(ctx, funcs):
+    """the implementation scope of the given methods: the methods themselves, their closures, and
+    (transitively) the crate-local helpers they call that are not themselves entry points of the
+    analysis (listener methods / public Screen methods have their own rules) - so that moving code
+    into a private helper does not move it out of a rule's sight"""
+    prog = ctx.prog
+    entry = set(runner.SCREEN_FNS) | set(runner.listener_entry_points(prog))
     out = set(funcs)
-    for f in list(funcs):
-        for c in ctx.prog.closures_of.get(f, []):
-            out.add(c)
-            for c2 in ctx.prog.closures_of.get(c, []):
-                out.add(c2)
+    work = list(funcs)
+    while work:
+        f = work.pop()
+        b = prog.bodies.get(f)
+        if b is None:
+            continue
+        for c in prog.closures_of.get(f, []):
+            if c not in out:
+                out.add(c)
+                work.append(c)
+        for bi, t in prog.calls(b):
+            kind, callee = prog.resolve_callee(t['func'].get('fn'))
+            if kind != 'local' or callee in out or callee in entry:
+                continue
+            if callee.startswith('<') and ' as std::' in callee:
+                continue      # derived / std trait impls on crate types (Clone, PartialEq, Default ...)
+            if callee.startswith('screen::') or callee.startswith('<screen::'):
+                out.add(callee)
+                work.append(callee)
     return out
 
 
@@ -39,8 +59,8 @@ def run_c10(ctx, chk):
     # D2 representation independence of the sparse grid in every mutator
     funcs = closures_of(ctx, F(GRID_FUNCS))
     na, nb = g.r_absent(ctx, chk, funcs)
-    chk.floor('materialisation sites', na, 8)
-    chk.floor('branched lookups on the grid', nb, 3)
+    chk.cover('materialisation sites', na.eps, ['draw', 'insert_characters', 'delete_characters', 'erase_characters', 'erase_in_line', 'erase_in_display', 'alignment_display'])
+    chk.cover('branched lookups on the grid', nb.eps, ['insert_characters', 'delete_characters', 'insert_lines', 'delete_lines'])
     # D3 rendering structure: rows ascending over 0..lines, columns ascending over 0..columns
     from .rules_c09 import loop_range
     prog = ctx.prog
@@ -347,9 +367,9 @@ def run_c13(ctx, chk):
     chk.floor('zero/absent comparisons', n, 4)
     funcs = closures_of(ctx, {ep('insert_characters'), ep('delete_characters')})
     ng = g.r_grid(ctx, chk, funcs)
-    chk.floor('grid key sites', ng, 4)
+    chk.cover('grid key sites', ng.eps, ['insert_characters', 'delete_characters'])
     na, nb = g.r_absent(ctx, chk, funcs)
-    chk.floor('branched lookups', nb, 2)
+    chk.cover('branched lookups', nb.eps, ['insert_characters', 'delete_characters'])
     footprint_row(ctx, chk, ['insert_characters', 'delete_characters'])
     blank_provenance(ctx, chk, ['insert_characters', 'delete_characters'], 'default_char')
     from .rules_c01 import panic_obligations
@@ -363,13 +383,16 @@ def footprint_row(ctx, chk, meths, rule='R-FOOT'):
     eng = sr['engine']
     prog = ctx.prog
     funcs = {ep(m) for m in meths}
+    scope = closures_of(ctx, funcs)
     agg = {}
+    eps_seen = set()
     for e in sr['events']:
         ev = e['ev']
-        if e['func'] not in funcs or e['ep'] not in funcs:
+        if e['func'] not in scope or e['ep'] not in funcs:
             continue
         if ev[0] not in ('map.insert', 'map.remove', 'map.entry_or_insert') or g.level_of(e) != 'cell':
             continue
+        eps_seen.add(e['ep'].split('::')[-1])
         st = e['st']
         row = g.row_of_path(ev[1])
         y0, x0 = st.vn.get(('entry', 'y')), st.vn.get(('entry', 'x'))
@@ -385,7 +408,7 @@ def footprint_row(ctx, chk, meths, rule='R-FOOT'):
                                                                         g.term(eng, st, y0), g.term(eng, st, x0))
     for (f, c), a in sorted(agg.items()):
         chk.instance(rule, f, c, a['ok'], detail=a['why'] or '%d visits' % a['n'], span=a['span'], what='cell outside the rest of the cursor row is touched: ' + a['why'])
-    chk.floor('footprint sites', len(agg), 4)
+    chk.cover('footprint sites', eps_seen, meths)
 
 
 def blank_provenance(ctx, chk, meths, want, rule='R-BLANK'):
@@ -395,12 +418,14 @@ def blank_provenance(ctx, chk, meths, want, rule='R-BLANK'):
     prog = ctx.prog
     funcs = {ep(m) for m in meths}
     agg = {}
+    eps_seen = set()
     for e in sr['events']:
         ev = e['ev']
         # every cell stored while the method runs, whichever helper performs the store
         if e['ep'] not in funcs or ev[0] != 'map.insert' or g.level_of(e) != 'cell':
             continue
         v = ev[3]
+        eps_seen.add(e['ep'].split('::')[-1])
         pv = getattr(v, 'prov', None)
         moved = isinstance(v, (OpaqueV,)) or (isinstance(v, StructV) and pv is None) or (isinstance(pv, tuple) and pv[0] == 'removed')
         if want == 'default_char':
@@ -417,7 +442,7 @@ def blank_provenance(ctx, chk, meths, want, rule='R-BLANK'):
             a['why'] = 'stores %r (provenance %r), documented %s' % (v, pv, desc)
     for (f, c), a in sorted(agg.items()):
         chk.instance(rule, f, c, a['ok'], detail=a['why'] or '%d visits' % a['n'], span=a['span'], what=a['why'])
-    chk.floor('stored-value sites', len(agg), 2)
+    chk.cover('stored-value sites', eps_seen, meths)
 
 
 # ===========================================================================
@@ -435,7 +460,7 @@ def run_c07(ctx, chk):
     chk.floor('absent/zero comparisons', n, 6)
     funcs = closures_of(ctx, {ep(m) for m in er})
     ng = g.r_grid(ctx, chk, funcs)
-    chk.floor('grid key sites', ng, 3)
+    chk.cover('grid key sites', ng.eps, er)
     blank_provenance(ctx, chk, er, 'cursor.attr')
     # may-footprint: every cell stored lies in the documented region for the selector of that path
     agg = {}
@@ -468,7 +493,7 @@ def run_c07(ctx, chk):
             a['why'] = why + ' | ' + str(e['entry'])
     for (f, c), a in sorted(agg.items()):
         chk.instance('R-FOOT', f, c, a['ok'], detail=a['why'] or '%d visits' % a['n'], span=a['span'], what='erase touches a cell outside the documented range: ' + a['why'])
-    chk.floor('erase footprint sites', len(agg), 4)
+    chk.cover('erase footprint sites', {k[1].rsplit('[', 1)[1].rstrip(']') for k in agg}, er)
     # erased cells take the cursor rendition: dropping a cell / row from the sparse grid instead (it then
     # reads as default_char()) is only the same thing when the cursor rendition is default_char()
     rem = {}
@@ -562,11 +587,11 @@ def run_c06(ctx, chk):
     chk.floor('zero/absent comparisons', n, 4)
     funcs = closures_of(ctx, {ep(m) for m in ('index', 'reverse_index', 'insert_lines', 'delete_lines', 'linefeed')})
     ng = g.r_grid(ctx, chk, funcs)
-    chk.floor('grid key sites', ng, 8)
+    chk.cover('grid key sites', ng.eps, ['index', 'reverse_index', 'insert_lines'])
     na, nb = g.r_absent(ctx, chk, funcs)
-    chk.floor('branched lookups', nb, 2)
+    chk.cover('branched lookups', nb.eps, ['insert_lines', 'delete_lines'])
     nd = g.r_dirty(ctx, chk, funcs)
-    chk.floor('dirty-covered write sites', nd, 4)
+    chk.cover('dirty-covered write sites', nd.eps, ['index', 'reverse_index', 'insert_lines', 'delete_lines'])
     rekey(ctx, chk)
     ildl_region(ctx, chk)
     set_margins_clauses(ctx, chk)
@@ -583,6 +608,7 @@ def rekey(ctx, chk):
     prog = ctx.prog
     for meth, edge, off in (('index', 'bottom', 1), ('reverse_index', 'top', -1)):
         f = ep(meth)
+        scope_f = closures_of(ctx, {f})
         bad = []
         cnt = 0
         for r, st, ret in each_final(sr, f):
@@ -616,7 +642,7 @@ def rekey(ctx, chk):
         agg = {}
         for e in sr['events']:
             ev = e['ev']
-            if e['func'] != f or ev[0] != 'map.insert' or g.level_of(e) != 'row':
+            if e['func'] not in scope_f or e['ep'] != f or ev[0] != 'map.insert' or g.level_of(e) != 'row':
                 continue
             st = e['st']
             key = ev[2]
@@ -656,7 +682,7 @@ def rekey(ctx, chk):
                 a['why'] = why + ' | ' + str(e['entry'])
         for (ff, c), a in sorted(agg.items()):
             chk.instance('R-REKEY', ff, c, a['ok'], detail=a['why'] or '%d visits' % a['n'], span=a['span'], what=a['why'])
-        chk.floor('%s re-keying sites' % meth, len(agg), 4)
+        chk.floor('%s re-keying sites' % meth, len(agg), 1)
 
 
 def ildl_region(ctx, chk):
@@ -669,7 +695,7 @@ def ildl_region(ctx, chk):
         agg = {}
         for e in sr['events']:
             ev = e['ev']
-            if e['func'] != f or e['ep'] != f or ev[0] not in ('map.insert', 'map.remove') or g.level_of(e) != 'row':
+            if e['func'] not in closures_of(ctx, {f}) or e['ep'] != f or ev[0] not in ('map.insert', 'map.remove') or g.level_of(e) != 'row':
                 continue
             st = e['st']
             key = ev[2]
@@ -687,7 +713,7 @@ def ildl_region(ctx, chk):
                 a['why'] = 'row %s touched with cursor row %s, region [%s, %s] | %s' % (g.term(eng, st, key), g.term(eng, st, y0), g.term(eng, st, top), g.term(eng, st, bottom), e['entry'])
         for (ff, c), a in sorted(agg.items()):
             chk.instance('R-FOOT', ff, c, a['ok'], detail=a['why'] or '%d visits' % a['n'], span=a['span'], what=a['why'])
-        chk.floor('%s row-operation sites' % meth, len(agg), 2)
+        chk.floor('%s row-operation sites' % meth, len(agg), 1)
         bad = []
         cnt = 0
         for r, st, ret in each_final(sr, f):
@@ -740,7 +766,7 @@ def run_c17(ctx, chk):
     chk.assume('A-DIM', 'A-ARG', 'A-PUB', 'A-TOOL')
     funcs = closures_of(ctx, F(GRID_FUNCS))
     nd = g.r_dirty(ctx, chk, funcs)
-    chk.floor('dirty-covered write sites', nd, 20)
+    chk.cover('dirty-covered write sites', nd.eps, ['draw', 'insert_characters', 'delete_characters', 'erase_characters', 'erase_in_line', 'erase_in_display', 'insert_lines', 'delete_lines', 'index', 'reverse_index', 'alignment_display', 'reset'])
     # screen-wide operations mark every row
     sr = ctx.screen_run()
     eng = sr['engine']
